@@ -752,7 +752,10 @@ class Evaluator:
                 if x.ty == STR and v.format_spec is None and v.conversion == -1:
                     parts.append(x.t)
                 else:
-                    if x.ty in (INT, REAL, BOOL) and v.format_spec is None and v.conversion == -1:
+                    if isinstance(x.ty, TOpt) and x.ty.inner in (INT, REAL) and v.format_spec is None and v.conversion == -1:
+                        fn_ = z3.Function('py_str_' + x.ty.inner.name, x.ty.inner.sort(), z3.StringSort())
+                        parts.append(z3.If(x.ty.is_none(x.t), z3.StringVal('None'), fn_(x.ty.val(x.t))))
+                    elif x.ty in (INT, REAL, BOOL) and v.format_spec is None and v.conversion == -1:
                         # str() of a number inside an f-string: a function of the value (LC-NUMTEXT)
                         parts.append(z3.Function('py_str_' + x.ty.name, x.ty.sort(), z3.StringSort())(x.t))
                     else:
